@@ -1,5 +1,7 @@
 import CpModel.Drv.Util
 import CpModel.Tls.Version
+import CpModel.Tls.Ja3
+import CpSpec.Ja3
 /- Handlers for TLS-level ops. -/
 namespace Cp.Drv
 open Cp.Tls
@@ -11,6 +13,16 @@ def tlsOp : List String → Option String
     let a ← a.toNat?; let b ← b.toNat?
     pure (" ".intercalate [b01 (lt a b), b01 (le a b), b01 (eq a b), b01 (!(eq a b)), b01 (gt a b), b01 (ge a b),
       b01 (hashKey a == hashKey b)])
+  | ["J3", hex] => do
+    let b ← bytesOfHex hex
+    let model := match parseClientHello b with
+      | .ok (h, n) => s!"OK {n} {hexOfBytes (ja3 h).toUTF8.toList}"
+      | .error (.crash "UNMODELLED") => "UNMODELLED"
+      | .error e => showErr e
+    let spec := match Cp.Spec.Ja3.ja3Ref b with
+      | some s => hexOfBytes s.toUTF8.toList
+      | none => "NONE"
+    pure s!"{model} {spec}"
   | _ => none
 
 end Cp.Drv
